@@ -192,7 +192,7 @@ func c17wFloat(r *rng, digits int, tame bool) float64 {
 		f = float64(r.next()>>11) / (1 << 53)
 	case p < 65: // ties and near-ties of the printed percentage at the rounding digit: (k + 0.5) * 10^-digits / 100
 		dg := digits
-		if dg < 0 {
+		if dg < 0 || dg > 1000000 {
 			dg = 6
 		}
 		k := float64(r.rangeInt(0, 2000))
@@ -233,6 +233,8 @@ func genC17WTable(r *rng, id string, out *caseWriter) {
 		digits = -r.rangeInt(1, 3)
 	case p < 10:
 		digits = r.rangeInt(9, 30)
+	case p < 11: // above fmt's limit for a precision argument
+		digits = pick(r, []int{1000001, 2000000000})
 	}
 	// half of the tables are like the reports of a portfolio without short positions at --digits 0..5: every weight
 	// in [0, 1]; by C17_weights_rect_unit these are rectangular
@@ -373,7 +375,7 @@ func genZeroTotal(r *rng) (Journal, PfCfg) {
 	return j, c
 }
 
-var c17wDigits = []int{0, 0, 1, 2, 2, 2, 3, 4, 5, 5, 6, 8, -1}
+var c17wDigits = []int{0, 0, 1, 2, 2, 2, 3, 4, 5, 5, 6, 8, -1, 0, 2, 3, 4, 5, 1, 2000000}
 
 func genC17w(out *caseWriter, seed uint64, n int, _ []string) error {
 	// nine in ten cases are in-process tables; one in ten runs the binary
